@@ -661,6 +661,35 @@ impl Socket for AbortPeer {
     }
 }
 
+/// C13, abort cause "write error": the upload target is a symbolic link to /dev/full (the file can be created, every write fails).
+/// The peer sends the complete file; the upload must fail and, with clean-on-error, the target must be removed.
+fn uploads_onto_a_full_disk(dir: &PathBuf, verdict: &mut Verdict, runs: &mut u64) {
+    if !std::path::Path::new("/dev/full").exists() {
+        return;
+    }
+    for (nb, ws) in [(2usize, 1u16), (3, 4), (9, 4)] {
+        if too_many_stuck() { return; }
+        *runs += 1;
+        let len = (nb - 1) * BLK + 3;
+        let data = file_bytes(len);
+        let path = dir.join("full-disk.bin");
+        let _ = std::fs::remove_file(&path);
+        if std::os::unix::fs::symlink("/dev/full", &path).is_err() { return; }
+        let plan: VecDeque<Packet> = (1..=nb).map(|j| Packet::Data { block_num: j as u16, data: data[(j - 1) * BLK..std::cmp::min(j * BLK, len)].to_vec() }).collect();
+        let peer = AbortPeer { plan: Mutex::new(plan), then_error: false, error_sent: Mutex::new(false) };
+        let w = Worker::new(Box::new(peer), path.clone(), true, BLK, TMO, ws, 1);
+        let joined = join_within(w.receive().unwrap(), 25);
+        let ctx = format!("upload of {nb} blocks (blksize {BLK}, windowsize {ws}, clean-on-error) onto a full disk (every write fails)");
+        if joined.is_none() {
+            verdict.violations.push(("C07", format!("{ctx}: the receiver neither completed nor gave up within 25 s")));
+        }
+        if std::fs::symlink_metadata(&path).is_ok() {
+            verdict.violations.push(("C13", format!("{ctx}: the upload did not fail / was not cleaned up: the target is still there")));
+            let _ = std::fs::remove_file(&path);
+        }
+    }
+}
+
 fn aborted_uploads(dir: &PathBuf, verdict: &mut Verdict, runs: &mut u64) {
     for nb in [1usize, 2, 3, 5] {
         // nb blocks, the last one short (3 bytes)
@@ -852,6 +881,7 @@ fn main() {
     }
     if which == "all" || which == "C13" {
         aborted_uploads(&dir, &mut verdict, &mut runs);
+        uploads_onto_a_full_disk(&dir, &mut verdict, &mut runs);
     }
     // real time-outs of more than a second each: full sweep only
     if !quick && (which == "all" || which == "C07" || which == "C04") {
